@@ -51,11 +51,16 @@ SumS == LET RECURSIVE T(_)
 HAt == [p \in P |-> [q \in P |-> IF p = q THEN I(-2 * A[p] * SumS) ELSE Zero]]
 BHHHAt(x) == [p \in P |-> [q \in P |-> SumQ([r \in Rw |-> QMul(GRow(x, r)[p], GRow(x, r)[q])], NR)]]
 
-XStar == [p \in P |-> IF fixed[p] THEN start[p] ELSE Clip(Mean(p), bd[p])]
+\* An algorithm that does not handle bounds solves the problem WITHOUT the declared bounds (the library warns and goes
+\* on): the bounds in force are none.
+BoundSupporting == {"scipy", "simple_bounds", "simple_bounds_newton", "simple_bounds_BFGS", "automatic"}
+NoBound == [set |-> FALSE, v |-> Zero]
+Eff(p) == IF algo \in BoundSupporting THEN bd[p] ELSE [lo |-> NoBound, hi |-> NoBound]
+XStar == [p \in P |-> IF fixed[p] THEN start[p] ELSE Clip(Mean(p), Eff(p))]
 Free == {p \in P : ~fixed[p]}
-AtLower(x, p) == bd[p].lo.set /\ QEq(x[p], bd[p].lo.v)
-AtUpper(x, p) == bd[p].hi.set /\ QEq(x[p], bd[p].hi.v)
-Feasible(x) == \A p \in Free : (bd[p].lo.set => QLeq(bd[p].lo.v, x[p])) /\ (bd[p].hi.set => QLeq(x[p], bd[p].hi.v))
+AtLower(x, p) == Eff(p).lo.set /\ QEq(x[p], Eff(p).lo.v)
+AtUpper(x, p) == Eff(p).hi.set /\ QEq(x[p], Eff(p).hi.v)
+Feasible(x) == \A p \in Free : (Eff(p).lo.set => QLeq(Eff(p).lo.v, x[p])) /\ (Eff(p).hi.set => QLeq(x[p], Eff(p).hi.v))
 \* KKT for a maximum: the gradient vanishes unless a bound blocks the ascent direction
 KKT(x) == \A p \in Free :
             LET g == GAt(x)[p] IN
@@ -63,11 +68,8 @@ KKT(x) == \A p \in Free :
             \/ (g.n > 0 /\ AtUpper(x, p))
             \/ (g.n < 0 /\ AtLower(x, p))
 
-BoundSupporting == {"scipy", "simple_bounds", "simple_bounds_newton", "simple_bounds_BFGS", "automatic"}
-
 Init == /\ bd \in BoundCfgs /\ start \in Starts /\ fixed \in FixedPats /\ algo \in Algos
         /\ Feasible(start) /\ Free # {}
-        /\ (algo \notin BoundSupporting => \A p \in P : ~bd[p].lo.set /\ ~bd[p].hi.set)
         /\ done = FALSE
 Emit == ~done /\ done' = TRUE /\ UNCHANGED <<bd, start, fixed, algo>>
 Next == Emit
